@@ -64,24 +64,13 @@ impl<'a> UserModel<'a> {
                                 .update_cell(*row, *column, value)?;
                         }
                         None => {
-                            if spill_dims.is_some() {
-                                // The spill cells were already cleared above; only
-                                // the anchor itself remains.  range_clear_all would
-                                // re-expand to the full spill range and erase cells
-                                // that were just restored by earlier diffs in this
-                                // same undo operation (e.g. the cut source that
-                                // overlaps the paste target's spill area).
-                                let _ = self
-                                    .model
-                                    .workbook
-                                    .worksheet_mut(*sheet)?
-                                    .cell_clear_contents(*row, *column);
-                            } else {
-                                self.model
-                                    .workbook
-                                    .worksheet_mut(*sheet)?
-                                    .cell_clear_contents(*row, *column)?;
-                            }
+                            // There was no cell before the input: remove it, so that no
+                            // implied number format or quote prefix is left behind. (Spill
+                            // cells of a dynamic anchor were already cleared above.)
+                            self.model
+                                .workbook
+                                .worksheet_mut(*sheet)?
+                                .remove_cell(*row, *column)?;
                         }
                     }
                 }
